@@ -173,6 +173,9 @@ def vtbl_c(trait, cont_ty, vt_ty):
 def render_c_meta(api):
     """-> (text, [(kind, text)] in header order) with kind in {'foreign', 'generic', 'cglue'}"""
     o = []
+    shape = api.get("shape", {})
+    if shape.get("guard"):
+        o.append("#ifndef PLUGIN_API_H\n#define PLUGIN_API_H\n")
     o.append("#include <stdarg.h>\n#include <stdbool.h>\n#include <stdint.h>\n#include <stdlib.h>\n")
     blocks = []          # (is_foreign, text)
     foreign = list(api.get("foreign", []))
@@ -256,7 +259,9 @@ def render_c_meta(api):
         fi += 1
     out_blocks = [(("foreign" if k is True else "cglue" if k is False else k), t) for k, t in out_blocks]
     o.append("\n".join(b for _, b in out_blocks))
-    o.append("#ifdef __cplusplus\nextern \"C\" {\n#endif // __cplusplus\n")
+    compat = shape.get("cpp_compat", True)
+    if compat:
+        o.append("#ifdef __cplusplus\nextern \"C\" {\n#endif // __cplusplus\n")
     fns = []
     for ob in api["objects"][:1]:
         t = api["traits"][ob["trait"]]
@@ -265,7 +270,10 @@ def render_c_meta(api):
     for f in api.get("foreign_fns", []):
         fns.append(f)
     o.append("\n".join(fns))
-    o.append("#ifdef __cplusplus\n} // extern \"C\"\n#endif // __cplusplus\n")
+    if compat:
+        o.append("#ifdef __cplusplus\n} // extern \"C\"\n#endif // __cplusplus\n")
+    if shape.get("guard"):
+        o.append("#endif /* PLUGIN_API_H */\n")
     meta = out_blocks + [("foreign", f) for f in api.get("foreign_fns", [])]
     return "\n".join(o), meta
 
@@ -293,7 +301,8 @@ def fn_decl_cpp(m):
 def render_cpp(api):
     """the C++ header cbindgen emits for the same API: templates are generic over container and context, so object and group variants
     do not show up in the text (they are instantiated by the user / the driver)"""
-    o = ["#include <cstdarg>\n#include <cstdint>\n#include <cstdlib>\n#include <ostream>\n#include <new>\n"]
+    shape = api.get("shape", {})
+    o = (["#ifndef PLUGIN_API_H\n#define PLUGIN_API_H\n"] if shape.get("guard") else []) + ["#include <cstdarg>\n#include <cstdint>\n#include <cstdlib>\n#include <ostream>\n#include <new>\n"]
     b = []
     used = sorted({ob["trait"] for ob in api["objects"]} | {t for g in api["groups"] for t in g["traits"]})
     for ti in used:
@@ -354,4 +363,6 @@ def render_cpp(api):
         fns.append(f)
     o.append("\n".join(fns))
     o.append('} // extern "C"\n')
+    if shape.get("guard"):
+        o.append("#endif // PLUGIN_API_H\n")
     return "\n".join(o), foreign + list(api.get("foreign_fns", []))
